@@ -18,6 +18,8 @@ import RedisVerif.Model.Glue
     GV <j> <idx> ;; <dump>                   → <merged rv|none> | <served keyspace of node j> | sup=<ok|reason>
     GX <j> <key> <rv> ;; <dump>              → same, for a crafted delta that is not in the history
     GR <i> <key> <rv> ;; <dump>              → fresh=<b> | <served keyspace of node i> | -      (ApplyRecoveredState)
+    GA <i> ;; <dump>                         → adopt | <dump> | -      (a command outside the model M7 ran on node i: the recorder
+                                               ignores it, the model adopts the executor keyspace and keeps the replication state)
     GS <i>                                   → <n> (<key> <rv> ;)* | <served keyspace> | served=<b>
     GK <key>                                 → delivered=<b> kind=<K|-> agree=<b> reads=<b>
   `<dump>` after `;;` is the IMPLEMENTATION's served keyspace after the step (C01 dump syntax,
@@ -228,6 +230,13 @@ def gstep (g : GCluster) (line : String) : GCluster × String :=
           s!"{mv} | {C01.showDump nd'.exec 0} | sup={showReason sup}")
       | none => (g, "bad-op")
     | none => (g, "bad-op")
+  | "GA" :: _ =>
+    match runP (do expect "GA"; let j ← nat; expect ";;"; let s ← C01.dump 0; pure (j, s)) line with
+    | some (j, impl) =>
+      match g.nodes[j]? with
+      | some _ => (adopt g j impl, s!"adopt | {C01.showDump impl 0} | -")
+      | none => (g, "bad-op")
+    | none => (g, "bad-op")
   | "GR" :: _ =>
     match runP (do expect "GR"; let j ← nat; let k ← strKey; let v ← rv; expect ";;"; let s ← C01.dump 0; pure (j, k, v, s)) line with
     | some (j, k, v, impl) =>
@@ -244,7 +253,7 @@ def gstep (g : GCluster) (line : String) : GCluster × String :=
 def stepAll (d : DState) (line : String) : DState × String :=
   match tokens line with
   | t :: _ =>
-    if t == "GN" || t == "GC" || t == "GV" || t == "GX" || t == "GR" || t == "GS" || t == "GK" then
+    if t == "GN" || t == "GC" || t == "GV" || t == "GX" || t == "GR" || t == "GA" || t == "GS" || t == "GK" then
       let r := gstep d.g line
       ({ d with g := r.1 }, r.2)
     else
